@@ -283,7 +283,8 @@ func famC15(g *Gen, o *Out, n int, thorough bool) {
 				nw, err := w.WriteTo(&buf)
 				lstr = loadsStr()
 				if err != nil {
-					res = "r=" + classifyTrav(err)
+					// a failed write still reports how many bytes went out
+					res = fmt.Sprintf("r=%s nsame=%d", classifyTrav(err), b2i(int(nw) == buf.Len()))
 				} else {
 					b := buf.Bytes()
 					doff, dsz, ioff := leU64(b[27:35]), leU64(b[35:43]), leU64(b[43:51])
@@ -292,7 +293,7 @@ func famC15(g *Gen, o *Out, n int, thorough bool) {
 			} else {
 				lstr = loadsStr()
 			}
-			o.Line(fmt.Sprintf("trav kind=v2sel %s eng=%s loads=%s", desc, engOf(res), lstr), res)
+			o.Line(fmt.Sprintf("trav kind=v2sel opened=%d %s eng=%s loads=%s", b2i(err == nil), desc, engOf(res), lstr), res)
 			o.Count("v2sel/" + strings.SplitN(res, " ", 2)[0])
 		}
 		// (b) TraverseV1
@@ -300,7 +301,7 @@ func famC15(g *Gen, o *Out, n int, thorough bool) {
 			d.loads = nil
 			var buf bytes.Buffer
 			nw, err := carv2.TraverseV1(ctx, &d.ls, d.root, sel, &buf, opts...)
-			res := "r=" + classifyTrav(err)
+			res := fmt.Sprintf("r=%s nsame=%d", classifyTrav(err), b2i(int(nw) == buf.Len()))
 			if err == nil {
 				res = fmt.Sprintf("r=ok n=%d v1=%x", nw, buf.Bytes())
 			}
